@@ -13,7 +13,9 @@ import (
 	"github.com/ontio/ontology-crypto/keypair"
 	"github.com/polynetwork/poly/common"
 	"github.com/polynetwork/poly/common/constants"
+	"github.com/polynetwork/poly/core/ledger"
 	"github.com/polynetwork/poly/core/store"
+	scommon "github.com/polynetwork/poly/core/store/common"
 	"github.com/polynetwork/poly/core/types"
 	"github.com/polynetwork/poly/merkle"
 	"github.com/polynetwork/poly/native"
@@ -32,6 +34,12 @@ import (
 //	    <prog> ::= (put K V | del K | get K | cp K1 K2 | ntf D | mkl D | fail | ret D | wit X | inp | ctx | bi
 //	               | call C.m [ <prog> ] | try C.m [ <prog> ])*
 //	commit                        persist the last executed block (AddBlock)
+//	keep                          hold the last executed candidate block together with the ExecuteResult that was returned
+//	submitkept                    after other candidates were executed for the same height: the held result must be
+//	                              unchanged and equal to a fresh re-execution; persist it through SubmitBlock(block, result)
+//	                              and read back the stored cross states and their root
+//	nblk <dt> <c>/<m>;<variant>;<signers>;<owner> ...   (family determ) a block of real native-contract transactions,
+//	                              executed k times on two ledgers; outcome `same n=<txs>`
 //
 // outcome of blk: per transaction `ok|fail/<events>/<what the contract observed>`, then cross hashes, write set,
 // state-change digest and cross-state root.
@@ -357,6 +365,12 @@ type atomic struct {
 	lastBlk *types.Block
 	lastRes store.ExecuteResult
 	lastOk  bool
+	// a candidate block whose ExecuteResult is held while other candidates are executed (consensus does exactly this:
+	// ExecuteBlock for every proposal, SubmitBlock(block, result) for the one that is sealed)
+	keptBlk  *types.Block
+	keptRes  store.ExecuteResult
+	keptLine string
+	keptRef  map[string][]byte
 	refBase map[string][]byte // independent reference of the committed contract storage
 	lastRef map[string][]byte
 }
@@ -366,6 +380,7 @@ func (f *atomic) Reset(r *hx.Run) {
 	f.led2.close()
 	f.led, f.led2 = nil, nil
 	f.lastBlk, f.lastOk = nil, false
+	f.keptBlk = nil
 	f.refBase = map[string][]byte{}
 	f.lastRef = nil
 	f.nonce = 0
@@ -570,6 +585,23 @@ func (f *atomic) Exec(r *hx.Run, op []string) string {
 				r.Hist("native.fail")
 			}
 		}
+		// C15 on real methods: the block without its failed transactions (bad witness, bad parameters, wrong state)
+		// must give the same write set, cross hashes and events
+		if nOk != len(txs) {
+			var okTxs []*types.Transaction
+			for i, n := range res.Notify {
+				if n.State == event.CONTRACT_STATE_SUCCESS {
+					okTxs = append(okTxs, txs[i])
+				}
+			}
+			if fb, err := f.led.nextBlock(okTxs, uint32(dt)); err == nil {
+				if fres, err := f.led.execute(fb); err == nil {
+					if a, b := renderNativeOk(res), renderNativeOk(fres); a != b {
+						r.Viol("C15:failed-tx-left-trace:native:"+nativeKey(op[2:]), "executing only the successful native transactions of the block gives a different result: "+firstDiff(a, b))
+					}
+				}
+			}
+		}
 		reps := f.reps
 		if r.Thorough() {
 			reps *= 5
@@ -590,10 +622,79 @@ func (f *atomic) Exec(r *hx.Run, op []string) string {
 			}
 		}
 		return fmt.Sprintf("same n=%d", len(txs))
+	case "keep":
+		if !f.lastOk {
+			return "bad-op"
+		}
+		f.keptBlk, f.keptRes, f.keptRef = f.lastBlk, f.lastRes, f.lastRef
+		f.keptLine = renderResult(f.keptRes, f.keptBlk.Transactions, false)
+		return "ok"
+	case "submitkept":
+		// the held result must still be what ExecuteBlock returned, whatever was executed since; then it is persisted
+		// through the consensus path SubmitBlock(block, result) and the stored cross states are read back
+		if f.keptBlk == nil {
+			return "bad-op"
+		}
+		blk, res := f.keptBlk, f.keptRes
+		f.keptBlk = nil
+		now := renderResult(res, blk.Transactions, false)
+		fresh, err := f.led.execute(blk)
+		if err != nil {
+			return "err-exec"
+		}
+		freshLine := renderResult(fresh, blk.Transactions, false)
+		if now != f.keptLine {
+			r.Viol("C16:execute-result-changed-after-later-execution", "an ExecuteResult held by the caller changed while other blocks were executed on the same ledger: when returned "+f.keptLine+" ;; now "+now)
+		} else if freshLine != f.keptLine {
+			r.Viol("C16:rerun-differs:scripted", "re-executing a held candidate block gives another result: first "+f.keptLine+" ;; again "+freshLine)
+		}
+		ledger.DefLedger = f.led.lg
+		if err := f.led.ls.SubmitBlock(blk, res); err != nil {
+			return "err:" + err.Error()
+		}
+		h := blk.Header.Height
+		if f.led.ls.GetCurrentBlockHeight() != h {
+			return "err:height"
+		}
+		if f.led2 != nil {
+			res2, err := f.led2.execute(blk)
+			if err == nil {
+				err = f.led2.commit(blk, res2)
+			}
+			if err != nil {
+				return "err-twin:" + err.Error()
+			}
+		}
+		for k, v := range f.keptRef {
+			if len(v) == 0 {
+				delete(f.refBase, k)
+			} else {
+				f.refBase[k] = v
+			}
+		}
+		f.lastOk = false
+		key := []byte{byte(scommon.SYS_CROSS_STATES), byte(h), byte(h >> 8), byte(h >> 16), byte(h >> 24)}
+		raw, err := f.led.ls.VerifStorageRaw(key)
+		if err != nil {
+			return "err:" + err.Error()
+		}
+		var stored []string
+		for i := 0; i+32 <= len(raw); i += 32 {
+			stored = append(stored, hex.EncodeToString(raw[i:i+32]))
+		}
+		root, err := f.led.ls.GetCrossStateRoot(h)
+		if err != nil {
+			return "err:" + err.Error()
+		}
+		if want := crossStrings(fresh.CrossHashes); strings.Join(stored, ",") != strings.Join(want, ",") || (len(want) > 0 && root != fresh.CrossStatesRoot) {
+			r.Viol("C16:stored-cross-states-differ", fmt.Sprintf("SubmitBlock stored cross states %v (root %x) for a block whose execution yields %v (root %x)", stored, root[:], want, fresh.CrossStatesRoot[:]))
+		}
+		return "ok x=" + join(stored) + " r=" + hex.EncodeToString(root[:])
 	case "commit":
 		if !f.lastOk {
 			return "bad-op"
 		}
+		f.keptBlk = nil
 		if err := f.led.commit(f.lastBlk, f.lastRes); err != nil {
 			return "err:" + err.Error()
 		}
@@ -870,6 +971,18 @@ func firstDiff(a, b string) string {
 	return fmt.Sprintf("at byte %d: …%s… vs …%s…", i, a[lo:ha], b[lo:hb])
 }
 
+// renderNativeOk: the same restricted to successful transactions.
+func renderNativeOk(res store.ExecuteResult) string {
+	cp := res
+	cp.Notify = nil
+	for _, n := range res.Notify {
+		if n.State == event.CONTRACT_STATE_SUCCESS {
+			cp.Notify = append(cp.Notify, n)
+		}
+	}
+	return renderNative(cp)
+}
+
 // renderNative renders every observable part of the result of a block of real transactions (events as JSON).
 func renderNative(res store.ExecuteResult) string {
 	var parts []string
@@ -1043,8 +1156,31 @@ func (f *atomic) Gen(r *hx.Run) {
 			if id%50 == 1 && b == 0 {
 				r.Sample(map[string]interface{}{"block": strings.Join(txs, " "), "result": res})
 			}
-			if r.Rng.Chance(1, 2) {
+			switch r.Rng.Intn(6) {
+			case 0, 1, 2:
 				r.Do("commit")
+			case 3:
+				// consensus interleaving: hold this candidate's result, execute other candidates for the same height
+				// (different transactions; the same transactions in another order), then submit the held one
+				withCross := append(append([]string{}, txs...), "tx s0 B.run [ mkl "+g.val()+" put 01 "+g.val()+" mkl "+g.val()+" ntf 01 mkl 0a0b ]")
+				txs = withCross
+				r.Do(fmt.Sprintf("blk %d %s", r.Rng.Intn(3), strings.Join(withCross, " ")))
+				r.Do("keep")
+				for k := 0; k < 1+r.Rng.Intn(2); k++ {
+					var other []string
+					for i := 0; i < 1+r.Rng.Intn(4); i++ {
+						other = append(other, g.tx(r.Rng.Chance(1, 4)))
+					}
+					other = append(other, "tx s0 A.run [ mkl "+g.val()+" mkl "+g.val()+" put 02 "+g.val()+" ]")
+					r.Do(fmt.Sprintf("blk %d %s", r.Rng.Intn(3), strings.Join(other, " ")))
+				}
+				rev := append([]string{}, txs...)
+				for i, j := 0, len(rev)-1; i < j; i, j = i+1, j-1 {
+					rev[i], rev[j] = rev[j], rev[i]
+				}
+				r.Do(fmt.Sprintf("blk %d %s", r.Rng.Intn(3), strings.Join(rev, " ")))
+				r.Do("submitkept")
+				r.Hist("held-result-submitted")
 			}
 		}
 	}
